@@ -2,6 +2,7 @@ import PcVerif.Ops.Caption
 import PcVerif.Spec.TextDecode
 import PcVerif.Model.XmlText
 import PcVerif.Model.World
+import PcVerif.Model.XmlTree
 namespace PcVerif.Ops
 open Proto TextW
 
@@ -46,6 +47,34 @@ def worldOps : List (String × Handler) := [
       let w := if k = "dfxp" then SpanWriter.dfxp else if k = "legacy" then SpanWriter.legacy else SpanWriter.sami
       let caps := if doc = "[]" then [] else (doc.splitOn "|").map decNodes
       encBool (writeDoc w (decBool st) caps).2
+    | _ => "bad-args")
+]
+end PcVerif.Ops
+
+namespace PcVerif.Ops
+open Proto XmlTree
+
+/-- tokens: `T<hex>` text, `B` br, `S<i><b><u>` open styled element, `O` open other element, `)` close -/
+def parseTree : Nat → List String → List XNode → List (List XNode × (List XNode → XNode)) → List XNode
+  | 0, _, cur, _ => cur
+  | _, [], cur, _ => cur
+  | fuel + 1, tok :: rest, cur, stack =>
+    if tok = ")" then
+      match stack with
+      | (parent, mk) :: st => parseTree fuel rest (parent ++ [mk cur]) st
+      | [] => cur
+    else if tok = "B" then parseTree fuel rest (cur ++ [XNode.br]) stack
+    else if tok = "O" then parseTree fuel rest [] ((cur, XNode.other) :: stack)
+    else if tok.startsWith "T" then parseTree fuel rest (cur ++ [XNode.text (decStr (tok.drop 1).toString)]) stack
+    else match tok.toList with
+      | ['S', i, b, u] => parseTree fuel rest [] ((cur, XNode.styled { italics := i = '1', bold := b = '1', underline := u = '1' }) :: stack)
+      | _ => parseTree fuel rest cur stack
+
+def xmlTreeOps : List (String × Handler) := [
+  ("xml.nodes", fun a => match a with
+    | [toks] =>
+      let ts := if toks = "_" then [] else toks.splitOn " "
+      encNodes (nodesList (parseTree (ts.length + 1) ts [] []))
     | _ => "bad-args")
 ]
 end PcVerif.Ops
